@@ -560,8 +560,149 @@ func (c *Ctx) checkBinaryDriver(d *ssa.Function) {
 	if okArgs && !sawMulti {
 		okArgs, why = false, "the multidirectional mode does not run the multidirectional broadcast helper"
 	}
+	// the same facts over the finite table of modes, however the selection is written
+	if known, tbad := c.binaryDriverTable(d); known {
+		okArgs, why = tbad == "", tbad
+	}
 	// result: []Tensor{out} and the kernel's error
 	c.decide(okArgs, "R7", key, site, "mode switch -> broadcast(A,B) -> op(A',B') with operands in order", why)
+}
+
+// binaryDriverTable walks the driver (A, B, kernel, mode) with abstract operands for the three broadcasting modes,
+// with the broadcast helper and the kernel succeeding or failing: the kernel must receive (A, B) as they are, or the
+// two results of the mode's helper applied to (A, B), in order; its result is the single output; a failure of
+// either is returned as an error. known=false when a cell cannot be followed to one outcome.
+func (c *Ctx) binaryDriverTable(d *ssa.Function) (known bool, bad string) {
+	if len(d.Params) != 4 {
+		return false, ""
+	}
+	modes := []struct {
+		name, helper string
+	}{{"NoBroadcasting", ""}, {"UnidirectionalBroadcasting", "UnidirectionalBroadcast"}, {"MultidirectionalBroadcasting", "MultidirectionalBroadcast"}}
+	cov := newCover(d)
+	{
+		// a mode the library does not define: only walked, so that the selection's fall-through is seen
+		p := &pinterp{c: c, budget: 100000, objects: true, cover: cov}
+		p.intercept = func(fn *ssa.Function, call *ssa.Call, callee *ssa.Function, args []pval, h *pheap) ([]pval, bool) {
+			if fnPkgPath(callee) == pkgOps && callee.Parent() == nil && strings.HasSuffix(callee.Name(), "directionalBroadcast") {
+				return []pval{{k: pAbs, i: 9011, s: "tensor"}, {k: pAbs, i: 9012, s: "tensor"}, {k: pNil}}, true
+			}
+			return nil, false
+		}
+		p.onDyn = func(fn *ssa.Function, call *ssa.Call, args []pval, h *pheap) ([]pval, bool) {
+			return []pval{{k: pAbs, i: 9021, s: "tensor"}, {k: pNil}}, true
+		}
+		p.run(d, []pval{{k: pAbs, i: 9001, s: "tensor"}, {k: pAbs, i: 9002, s: "tensor"}, {k: pHookFn, i: 1}, {k: pInt, i: 97}}, 0, newHeap())
+	}
+	for _, m := range modes {
+		mv := c.constValue(pkgOps, m.name)
+		if mv < 0 {
+			return false, ""
+		}
+		for _, fail := range []string{"", "broadcast", "kernel"} {
+			if fail == "broadcast" && m.helper == "" {
+				continue
+			}
+			A, B := pval{k: pAbs, i: 9001, s: "tensor"}, pval{k: pAbs, i: 9002, s: "tensor"}
+			r0, r1, out := pval{k: pAbs, i: 9011, s: "tensor"}, pval{k: pAbs, i: 9012, s: "tensor"}, pval{k: pAbs, i: 9021, s: "tensor"}
+			p := &pinterp{c: c, budget: 100000, objects: true, cover: cov}
+			var helpers []string
+			var kernelArgs [][]pval
+			helperArgsOK := true
+			p.intercept = func(fn *ssa.Function, call *ssa.Call, callee *ssa.Function, args []pval, h *pheap) ([]pval, bool) {
+				if fnPkgPath(callee) == pkgOps && callee.Parent() == nil && (callee.Name() == "UnidirectionalBroadcast" || callee.Name() == "MultidirectionalBroadcast") {
+					helpers = append(helpers, callee.Name())
+					if len(args) != 2 || args[0].k != pAbs || args[0].i != A.i || args[1].k != pAbs || args[1].i != B.i {
+						helperArgsOK = false
+					}
+					if fail == "broadcast" {
+						return []pval{{k: pNil}, {k: pNil}, {k: pNonNil}}, true
+					}
+					return []pval{r0, r1, {k: pNil}}, true
+				}
+				return nil, false
+			}
+			p.onDyn = func(fn *ssa.Function, call *ssa.Call, args []pval, h *pheap) ([]pval, bool) {
+				if len(args) == 3 && args[0].k == pHookFn {
+					kernelArgs = append(kernelArgs, args[1:])
+					if fail == "kernel" {
+						return []pval{{k: pNil}, {k: pNonNil}}, true
+					}
+					return []pval{out, {k: pNil}}, true
+				}
+				return nil, false
+			}
+			heap := newHeap()
+			res, h := p.run(d, []pval{A, B, {k: pHookFn, i: 1}, {k: pInt, i: mv}}, 0, heap)
+			if p.aborted || len(res) != 2 {
+				return false, ""
+			}
+			desc := "mode " + m.name
+			isErr := nonNilKind(res[1].k)
+			if !isErr && res[1].k != pNil {
+				return false, ""
+			}
+			wantHelpers := 0
+			if m.helper != "" {
+				wantHelpers = 1
+			}
+			switch {
+			case len(helpers) != wantHelpers:
+				if m.helper == "" {
+					return true, desc + " runs a broadcast helper"
+				}
+				return true, "the " + strings.ToLower(strings.TrimSuffix(m.name, "Broadcasting")) + " mode does not run the " + strings.ToLower(strings.TrimSuffix(m.name, "Broadcasting")) + " broadcast helper"
+			case wantHelpers == 1 && helpers[0] != m.helper:
+				return true, desc + " runs " + helpers[0]
+			case !helperArgsOK:
+				return true, "broadcast helper is not applied to (A, B) in that order"
+			}
+			if fail == "broadcast" {
+				if !isErr {
+					return true, desc + ": a failed broadcast is not returned as an error"
+				}
+				if len(kernelArgs) > 0 {
+					return true, desc + ": the kernel runs although broadcasting failed"
+				}
+				continue
+			}
+			if len(kernelArgs) != 1 {
+				return true, fmt.Sprintf("%s: the kernel is called %d times", desc, len(kernelArgs))
+			}
+			w0, w1 := A, B
+			if m.helper != "" {
+				w0, w1 = r0, r1
+			}
+			ka := kernelArgs[0]
+			if ka[0].k != pAbs || ka[1].k != pAbs || ka[0].i != w0.i || ka[1].i != w1.i {
+				if ka[0].k == pAbs && ka[1].k == pAbs && ka[0].i == w1.i && ka[1].i == w0.i {
+					return true, desc + ": the kernel receives the operands in the wrong order"
+				}
+				return true, desc + ": the kernel does not receive the (broadcast) operands of this mode"
+			}
+			if fail == "kernel" {
+				if !isErr {
+					return true, desc + ": a failed kernel is not returned as an error"
+				}
+				continue
+			}
+			if isErr {
+				return true, desc + ": an error is returned although nothing failed"
+			}
+			if res[0].k != pList || h == nil || len(h.lists[res[0].i]) != 1 || h.lists[res[0].i][0].k != pAbs || h.lists[res[0].i][0].i != out.i {
+				if res[0].k != pList || h == nil {
+					return false, ""
+				}
+				return true, desc + ": the kernel's result is not the single output"
+			}
+		}
+	}
+	if unc := cov.uncovered(c); len(unc) > 0 {
+		c.declined("binary driver table", unc)
+		return false, ""
+	}
+	c.counts["R7:driver:table-cells"] = 8
+	return true, ""
 }
 
 // checkBooleanLoop: the boolean element loop reads A and B at the same iterator coordinate and writes there.
@@ -860,6 +1001,10 @@ func (c *Ctx) checkGenericUnary(oi *opInfo, name, key string) {
 	if !seen["float32"] || !seen["float64"] {
 		bad = firstNonEmpty(bad, "float32 and float64 are not both computed")
 	}
+	// the same facts over the finite dtype table, however the dispatch is written
+	if known, tbad := c.unaryDtypeTable(oi, name); known {
+		bad = tbad
+	}
 	c.decide(bad == "", "R7", key, site, name+": case Float32 -> "+strings.ToLower(name)+"[float32], Float64 -> [float64], body T(math."+mathUnary[name]+"(float64(x)))", bad)
 }
 
@@ -906,7 +1051,14 @@ func (c *Ctx) checkPRelu(oi *opInfo, key string) {
 					continue
 				}
 				t0, t1 := c.term(cl.Common().Args[0], 0), c.term(cl.Common().Args[1], 0)
-				if t0 != "Data(UnidirectionalBroadcast(P1[0],P1[1]))" || t1 != "Data(UnidirectionalBroadcast(P1[0],P1[1])#1)" {
+				// the broadcast operands in order, as their data or as the tensors themselves (the kernel reads Data() then)
+				strip := func(t string) string {
+					if strings.HasPrefix(t, "Data(") && strings.HasSuffix(t, ")") {
+						return t[len("Data(") : len(t)-1]
+					}
+					return t
+				}
+				if strip(t0) != "UnidirectionalBroadcast(P1[0],P1[1])" || strip(t1) != "UnidirectionalBroadcast(P1[0],P1[1])#1" || (strip(t0) == t0) != (strip(t1) == t1) {
 					bad = fmt.Sprintf("the element kernel is not (always) fed the unidirectionally broadcast operands: it receives (%s, %s); a slope that is not materialised to the input's shape is indexed by position, not by axis", t0, t1)
 					site = c.pos(cl.Pos())
 				}
@@ -1102,6 +1254,7 @@ func (c *Ctx) preluKernelTable(f *ssa.Function) (string, bool) {
 		}
 		return "", false
 	}
+	cov := newCover(f)
 	for _, cell := range [][2][]int64{
 		{{-3, -1, 0, 2, 5}, {2, 3, 4, 5, 6}},
 		{{4}, {7}},
@@ -1116,7 +1269,7 @@ func (c *Ctx) preluKernelTable(f *ssa.Function) (string, bool) {
 			}
 			return heap.alloc(pl)
 		}
-		p := &pinterp{c: c, budget: 100000, objects: true, listsAreSlicesOf: st.Elem()}
+		p := &pinterp{c: c, budget: 100000, objects: true, listsAreSlicesOf: st.Elem(), cover: cov}
 		res, h := p.run(f, []pval{mk(cell[0]), mk(cell[1])}, 0, heap)
 		if h == nil || len(res) != 2 || res[1].k != pNil || res[0].k != pList || h.lists[res[0].i] == nil {
 			return "", false
@@ -1137,6 +1290,39 @@ func (c *Ctx) preluKernelTable(f *ssa.Function) (string, bool) {
 				return fmt.Sprintf("for x = %s and slope = %s element %d of the result is %d, PRelu prescribes %d (x if x >= 0, slope*x otherwise, slope taken at the element's own position)", fmtInts(cell[0]), fmtInts(cell[1]), i, got[i].i, want), true
 			}
 		}
+	}
+	// integers cannot show what a floating point slope does to a non-negative input (Inf*0 = NaN, -0): the same
+	// cells with the slope as tokens - the slope may take part in the result of a negative input only, once, as
+	// a factor of that input
+	for _, xs := range [][]int64{{-3, -1, 0, 2, 5}, {4}, {-4}} {
+		heap := newHeap()
+		px, ps := make([]pval, len(xs)), make([]pval, len(xs))
+		for i, v := range xs {
+			px[i] = pval{k: pInt, i: v}
+			ps[i] = pval{k: pTok, i: int64(i)}
+		}
+		p := &pinterp{c: c, budget: 100000, objects: true, listsAreSlicesOf: st.Elem()}
+		res, h := p.run(f, []pval{heap.alloc(px), heap.alloc(ps)}, 0, heap)
+		if h == nil || len(res) != 2 || res[1].k != pNil || res[0].k != pList || h.lists[res[0].i] == nil || len(h.lists[res[0].i]) != len(xs) {
+			return "", false
+		}
+		for i, g := range h.lists[res[0].i] {
+			x := xs[i]
+			switch {
+			case x >= 0 && g.k == pInt && g.i == x:
+			case x >= 0 && g.k == pTok:
+				return "the result element is not chosen between x and slope*x by the sign of x: slope takes part in the result for non-negative inputs too (NaN for infinite slopes, -0 lost)", true
+			case x < 0 && g.k == pTok && g.i == int64(i) && (g.s == fmt.Sprintf("|x * %d", x) || g.s == fmt.Sprintf("|%d * x", x)):
+			case x < 0 && g.k == pTok && g.i != int64(i):
+				return "a factor of slope*x is read at an index other than the element's own position (slope applied cyclically or shifted instead of per broadcast element)", true
+			default:
+				return "", false
+			}
+		}
+	}
+	if unc := cov.uncovered(c); len(unc) > 0 {
+		c.declined("PRelu kernel table of "+fname(f), unc)
+		return "", false
 	}
 	return "", true
 }
